@@ -212,6 +212,8 @@ impl FeatureState for TravelLimitState {
 
                     earliest_departure + travel_duration <= job_tw.end
                 })
+                // do not depart earlier than it is allowed
+                .map(|departure_time| start_place.time.earliest.unwrap_or(0.0).max(departure_time))
             })
             .next()
         else {
